@@ -159,3 +159,36 @@ pub fn segment(start_offset: u64, cfg: Arc<SystemConfig>) -> Segment {
     )
 }
 
+
+// ------------------------------------------------------------------------------------------------
+// Topic built literally (all fields are pub / pub(crate)): no async constructor, no disk access.
+// ------------------------------------------------------------------------------------------------
+use crate::streaming::topics::topic::Topic;
+use iggy::verif_model::map::AHashMap;
+
+pub fn new_topic(cfg: &Arc<SystemConfig>, st: &Arc<SystemStorage>, c: &Counters, max_topic_size: MaxTopicSize, message_expiry: IggyExpiry) -> Topic {
+    Topic {
+        stream_id: 1,
+        topic_id: 1,
+        name: String::new(),
+        path: String::new(),
+        partitions_path: String::new(),
+        size_bytes: c.size_topic.clone(),
+        size_of_parent_stream: c.size_stream.clone(),
+        messages_count_of_parent_stream: c.msgs_stream.clone(),
+        messages_count: c.msgs_topic.clone(),
+        segments_count_of_parent_stream: c.segs_stream.clone(),
+        config: cfg.clone(),
+        partitions: AHashMap::new(),
+        storage: st.clone(),
+        consumer_groups: AHashMap::new(),
+        consumer_groups_ids: AHashMap::new(),
+        current_consumer_group_id: AtomicU32::new(1),
+        current_partition_id: AtomicU32::new(1),
+        message_expiry,
+        compression_algorithm: CompressionAlgorithm::None,
+        max_topic_size,
+        replication_factor: 1,
+        created_at: IggyTimestamp::zero(),
+    }
+}
